@@ -299,10 +299,10 @@ def run(ctx, anchors=None):
     for n in main.nodes():
         if n["k"] == "call" and n.get("n") == "exit" and n["args"] and astq.const_value(n["args"][0]) == 1:
             gs = S.ast_guards(main, n)
-            for (c, t) in gs:
-                names = {x["n"] for x in walk(c) if x["k"] == "ref"}
-                if t and {"quiet", "verbose"} <= names and len(S.conjuncts(c)) == 2:
-                    refusal = (n, c)
+            # the two conjuncts quiet, verbose (as one `&&` condition or as nested ifs) and nothing else
+            tg = [(c, {x["n"] for x in walk(c) if x["k"] == "ref"}) for (c, t) in gs if t]
+            if len(tg) == 2 and sorted(next(iter(nm)) if len(nm) == 1 else "?" for (c, nm) in tg) == ["quiet", "verbose"] and not [1 for (c, t) in gs if not t]:
+                refusal = (n, tg[0][0])
     if refusal is None:
         ctx.fail("R08.4", "quiet&&verbose->exit(1)", main.loc(), "main no longer refuses quiet && verbose with exit(1)")
     else:
